@@ -99,6 +99,7 @@ class Tables:
     def run(self, prim, name, args, pre, **state):
         st = self.m.mk_state(**state)
         st.mem[("root",)] = ("sym", "rootval")
+        st.mem[("selfref",)] = self.m.ctx_ref()
         init = self.m.snapshot(st)
         try:
             raw = self.m.run(name, args, st)
@@ -136,12 +137,29 @@ class Tables:
             yield self.run(prim, fn, [self.cx(), mk(1)], pre, phase=ph,
                            objs={1: {"colour": c, "live": live, "nt": nt}})
 
+    def _trace_entry(self, method):
+        """The collector's `impl Trace` is found by its shape (implementor = the context or a reference to it), not
+        by a fixed path, so that moving the impl from `Context` to `&Context` does not lose the tables."""
+        ti = self.prog.collector_trace_impl()
+        if ti is None:
+            return "<context::Context as collect::Trace>::" + method, False
+        return ti[method], ti["by_ref"]
+
+    def _single_trace(self, prim, method, mk, phases=PH + ["Drop"]):
+        fn, by_ref = self._trace_entry(method)
+        for ph, c, live, nt in itertools.product(phases, COL, (0, 1), (0, 1)):
+            pre = {"phase": ph, "colour": c, "live": live, "nt": nt}
+            # `&mut self` where Self = &Context: a reference to a place holding the context reference
+            self_arg = ref(("selfref",), ()) if by_ref else self.cx()
+            yield self.run(prim, fn, [self_arg, mk(1)], pre, phase=ph,
+                           objs={1: {"colour": c, "live": live, "nt": nt}})
+
     def t_trace(self):
-        # through `impl Trace for Context` (what user Collect impls call): trace_gc -> strong marking
-        return self._single_v("trace", "<context::Context as collect::Trace>::trace_gc", gc)
+        # through the collector's `impl Trace` (what user Collect impls call): trace_gc -> strong marking
+        return self._single_trace("trace", "trace_gc", gc)
 
     def t_trace_weak(self):
-        return self._single_v("trace_weak", "<context::Context as collect::Trace>::trace_gc_weak", gcw)
+        return self._single_trace("trace_weak", "trace_gc_weak", gcw)
 
     def t_upgrade(self):
         return self._single("upgrade", "context::Context::upgrade")
